@@ -33,6 +33,7 @@ EXPLANATION = (
 EXPLANATION += " Also decided (rules added after the second round of seeded changes): package-wide who-may-call of the in-place primitives (_convert_magnitude, ito*: only in-place forms, on their own target, or the ireduce_dimensions wrapper on the fresh result); a local alias of an operand's magnitude is not used after the operand name is rebound to a converted quantity."
 EXPLANATION += ' Also decided (round 5): who may strip a parameter of its units without converting it - a reasoned table of the (implementation, parameter) pairs of numpy_func.py whose magnitude may be read raw; any other raw read (e.g. `period` of np.interp) is a violation.'
 EXPLANATION += ' Also decided (round 8): the *_if_needed helpers of NumpyQuantity leave the quantity unconverted only where it is unitless and radian is asked for; np.isclose/allclose take a bare atol in the units of `a`.'
+EXPLANATION += " Also decided (round 10): the arguments np.interp reads on one axis (x, xp, period; fp, left, right) reach the NumPy call only out of ONE consistent-units conversion statement shared with the axis' required members (reaching definitions on the CFG); a member converted on its own is a number in another unit than its siblings."
 
 
 
@@ -388,6 +389,7 @@ def run(ck, ix, tier):
     raw_magnitude_rule(ck, ix)
     no_conversion_rule(ck, ix)
     bare_tolerance_rule(ck, ix)
+    same_axis_rule(ck, ix)
     # ------------------------------------------------------------ (b) role agreement in hand-written implementations
     n_roles = 0
     for f in m.all_functions:
@@ -633,6 +635,69 @@ def raw_magnitude_rule(ck, ix):
                      f"`{norm(n)}` in {q} reads the magnitude of parameter `{p_}` without converting it to the units NumPy will assume for it (not one of the confirmed unit-free roles): a quantity in other units - or of another dimension - is accepted as a bare number")
     ck.floor("G-OWN", len(seen), 10, "raw magnitude reads of parameters in numpy_func implementations")
 
+
+
+SAME_AXIS = {
+    # NumPy name -> (positional signature, [(members that must be there, optional members)]): arguments NumPy reads as numbers
+    # on ONE axis, so they have to be expressed in one common unit by ONE consistent-units conversion
+    "interp": (["x", "xp", "fp", "left", "right", "period"], [(("x", "xp"), ("period",)), (("fp",), ("left", "right"))]),
+}
+
+
+def same_axis_rule(ck, ix):
+    """np.interp(x, xp, fp, left, right, period): x, xp and period are numbers on the abscissa, fp, left and right on the
+    ordinate. Every member of one axis that reaches the NumPy call has to come out of the SAME consistent-units
+    conversion statement as the axis' required members (reaching definitions on the CFG): a member converted on its
+    own - to whatever unit - is a number in another unit than its siblings."""
+    from .C01 import reaching_defs
+    m = ix.module(NF)
+    HELPERS = ("unwrap_and_wrap_consistent_units", "convert_to_consistent_units")
+    n = 0
+    for f in m.all_functions:
+        if not isinstance(f.node, ast.FunctionDef):
+            continue
+        names = [d.args[0].value for d in f.node.decorator_list if isinstance(d, ast.Call) and isinstance(d.func, ast.Name) and d.func.id == "implements"
+                 and d.args and isinstance(d.args[0], ast.Constant)]
+        for np_name in [x for x in names if x in SAME_AXIS]:
+            sig, axes = SAME_AXIS[np_name]
+            cfg = cfg_of(f)
+            for c in [c for c in walk_local(f.node) if isinstance(c, ast.Call) and dotted(c.func) == f"np.{np_name}"]:
+                argmap = {sig[i]: a for i, a in enumerate(c.args) if i < len(sig) and not isinstance(a, ast.Starred)}
+                argmap.update({k.arg: k.value for k in c.keywords if k.arg})
+                for required, optional in axes:
+                    stmts = {}
+                    for role in required + optional:
+                        e = argmap.get(role)
+                        if e is None or (isinstance(e, ast.Constant) and e.value is None):
+                            continue
+                        key = f"{f.name}|same-axis-one-conversion|{role}"
+                        if not isinstance(e, ast.Name):
+                            ck.fail("G-PROV", key, f.loc(c), f"`{role}={norm(e)[:60]}` of np.{np_name} is computed in place instead of coming out of the consistent-units conversion of its axis ({', '.join(required + optional)})")
+                            continue
+                        ds = reaching_defs(f, e.id, c)
+                        alld = set()
+                        for _, k_, st in defs_of(f).defs.get(e.id, []):
+                            if k_ != "fill":
+                                alld |= set(cfg.nodes_for_ast(st))
+                        goal = cfg.nodes_for_ast(c)
+                        raw = e.id in defs_of(f).params and cfg.path(cfg.entry, goal, avoid=alld - set(goal)) is not None
+                        bad = [st for v, k_, st in ds if not (isinstance(st, ast.Assign) and isinstance(st.value, ast.Call) and call_name(st.value) in HELPERS)]
+                        n += 1
+                        if bad:
+                            ck.fail("G-PROV", key, f.loc(bad[0]), f"`{norm(bad[0])[:80]}` gives np.{np_name} its `{role}` from something else than a consistent-units conversion of its axis ({', '.join(required + optional)}): the number is not in the unit of its siblings")
+                            continue
+                        if raw and role in required:
+                            ck.fail("G-PROV", key, f.loc(c), f"the parameter `{e.id}` can reach np.{np_name} as `{role}` without any conversion")
+                            continue
+                        stmts[role] = {id(st): st for _, _, st in ds}
+                        ck.ok("G-PROV", key, f.loc(c), f"`{role}` comes from {len(ds)} consistent-units conversion statement(s)")
+                    anchor_sets = [set(stmts[r]) for r in required if r in stmts]
+                    common = set.intersection(*anchor_sets) if anchor_sets else set()
+                    for role, sts in stmts.items():
+                        off = [st for i_, st in sts.items() if i_ not in common]
+                        ck.check(not off, "G-PROV", f"{f.name}|same-axis-same-statement|{role}", f.loc(off[0]) if off else f.loc(c), f"`{role}` is converted together with {', '.join(required)}",
+                                 f"`{norm(off[0])[:80]}`: `{role}` of np.{np_name} is converted by another statement than {', '.join(required)} - the members of one axis ({', '.join(required + optional)}) must be brought to ONE common unit by one conversion" if off else "")
+    ck.floor("G-PROV", n, 5, "same-axis arguments of np.interp traced to their consistent-units conversion")
 
 
 def no_conversion_rule(ck, ix):
